@@ -19,7 +19,7 @@ for d in sorted(os.listdir(root)):
     sw = sweep.get(d, {})
     now = "caught" if sw.get("exit") == 1 else ("?" if not sw else "NOT caught (exit %s)" % sw.get("exit"))
     sigs = [x.split(": ", 1)[-1] for x in sw.get("signatures", []) if "regression" not in x and "FAIL" not in x]
-    rnd = {"a": "1", "b": "1", "c": "2", "d": "2", "e": "3", "f": "3", "g": "4", "h": "4", "i": "5", "j": "5", "k": "6", "l": "6", "m": "7", "n": "7", "o": "8", "p": "8", "q": "9", "r": "9", "s": "10", "t": "10"}.get(d[-1], "?")
+    rnd = {"a": "1", "b": "1", "c": "2", "d": "2", "e": "3", "f": "3", "g": "4", "h": "4", "i": "5", "j": "5", "k": "6", "l": "6", "m": "7", "n": "7", "o": "8", "p": "8", "q": "9", "r": "9", "s": "10", "t": "10", "u": "11"}.get(d[-1], "?")
     rows.append("| %s | %s | %s | %s | %s | %s |" % (d, rnd, title[:100].replace("|", "/"), first, now, ", ".join(dict.fromkeys(sigs))[:48]))
 table = "| seeded change | round | what it is (first line of its notes) | first evaluation: caught by | current quick check of its property | signature |\n|---|---|---|---|---|---|\n" + "\n".join(rows)
 p = "/verif/DESIGN.md"
